@@ -199,11 +199,16 @@ def main(argv=None):
     if hasattr(mod, "finalize"):
         mod.finalize(merged, args.tier, seed)
 
-    if merged.errors:
+    crashed = len(merged.errors)
+    if crashed:
         for idx, err in merged.errors[:3]:
             print(f"HARNESS ERROR in unit {idx}:\n{err}")
-        print(f"harness error: {len(merged.errors)} unit(s) crashed; no verdict")
-        return 2
+        if not merged.violations:
+            print(f"harness error: {crashed} unit(s) crashed; no verdict")
+            return 2
+        # other units reported violations: each is confirmed by replay against the code below, and a confirmed violation is a
+        # verdict whatever else crashed; without one the run stays a harness error
+        print(f"harness error: {crashed} unit(s) crashed; continuing with the violations the other units reported")
 
     # anti-vacuity: counters that must be positive by construction
     required = mod.required_counters(args.tier) if hasattr(mod, "required_counters") else []
@@ -253,7 +258,7 @@ def main(argv=None):
         merged.counters["hash_seeds_explored"] = 1 + sum(1 for r in hs_report.values() if r["exit"] == 0)
     if args.digest_only:
         print(f"DIGEST {digest}")
-        return 2 if irreproducible and status == 0 else status
+        return 2 if (irreproducible or crashed) and status == 0 else status
     wall = round(time.time() - t0, 3)
     write_evidence(mod, prop, args.tier, seed, merged, wall, len(new), [v["signature"] for v in known], units)
     c = merged.counters
@@ -263,6 +268,9 @@ def main(argv=None):
         f"validated={c.get('validated', 0)} nontrivial={getattr(merged, 'nontrivial_override', None) or len(merged.nontrivial)} outcomes={len(merged.outcomes)} "
         f"violating_cases={merged.nviol} wall={wall}s"
     )
+    if crashed and status == 0:
+        print(f"harness error: {crashed} unit(s) crashed and no new violation was confirmed; no verdict")
+        return 2
     if irreproducible and status == 0:
         for v in irreproducible[:3]:
             print(f"harness error: failure not reproducible on replay: {v['signature']}: {v['message']}")
